@@ -100,6 +100,18 @@ def sym_args(ctx, cls, dim, latlon, temporal, tag="", constrain=True, interior=F
 CLOSED_ISCALE = ("Gaussian", "Exponential", "Stable", "Matern", "Integral", "Rational")
 
 
+# classes whose normalised correlation is evaluated at a probe lag before and after every operation (a value
+# cached at first evaluation must not survive a dimension / parameter change)
+COR_PROBE = ("Gaussian", "Exponential", "Stable", "Rational", "Spherical", "HyperSpherical", "SuperSpherical", "JBessel",
+             "TPLSimple")
+PROBE_LAG = 0.375
+
+
+def _probe():
+    from gsvc import symrun as _sr
+    return _sr.symarr([PROBE_LAG]) if _sr.symbolic_active() else np.array([PROBE_LAG])
+
+
 def build(cls, dim, latlon, temporal, a, opt, warm=True):
     m = _quiet(getattr(gs, cls), dim=dim, var=a["var"], len_scale=a["len_scale"],
                nugget=a["nugget"], anis=list(a["anis"]), angles=list(a["angles"]),
@@ -110,6 +122,8 @@ def build(cls, dim, latlon, temporal, a, opt, warm=True):
         _ = (m.sill, m.len_scale_vec, m.len_rescaled, m.spatial_dim, m.field_dim)
         if cls in CLOSED_ISCALE and not (cls == "Rational"):
             _ = m.integral_scale
+        if cls in COR_PROBE:
+            _ = m.cor(_probe())
     return m
 
 
@@ -122,6 +136,8 @@ def derived_eq(ctx, m, cls, latlon, temporal):
     if cls in CLOSED_ISCALE and cls != "Rational":
         cs.append(ctx.eq(m.integral_scale, f.integral_scale))
         cs.append(ctx.eq(m.integral_scale_vec, f.integral_scale_vec))
+    if cls in COR_PROBE:
+        cs.append(ctx.eq(m.cor(_probe())[0], f.cor(_probe())[0]))
     return ctx.And(*cs)
 
 
